@@ -10,15 +10,17 @@
       (existing tables, live foreign keys) and fails on: CREATE of an existing table, a foreign
       key (inline, ADD, or re-pointed) to a table that does not exist at that moment, ALTER of a
       missing table, DROP of a missing table, DROP of a table with a live foreign key from
-      another table.
+      another table, DROP FOREIGN KEY (or re-pointing) of a key that is not live.
     [adds x] / [drops x]: the table name created / dropped by change x (SortReplay.v).
     [WF cs]: what the differ can emit (SortProofs.v): every table in at most one of
       add/drop/modify; object ids determine names; a dropped table's keys name it as child;
-      declared keys do not point at dropped tables.
+      declared keys do not point at dropped tables; the keys of a dropped table have distinct
+      symbols and a ModifyTable drops / re-points a symbol at most once.
     [consistent c cs]: created tables are new, dropped and modified ones exist, parents of
       declared keys exist or are created, every live key from another table into a dropped table
       is dropped by the change set (its table is dropped with that key listed, or a
-      DropForeignKey / ModifyForeignKey of that symbol is present). *)
+      DropForeignKey / ModifyForeignKey of that symbol is present); the keys of dropped tables and the
+      keys a ModifyTable drops or re-points are live. *)
 From Coq Require Import List Bool Arith Permutation Sorted.
 From Atlas Require Import Plan.SortModel Plan.SortDfs Plan.SortReplay Plan.SortProofs Plan.SortDialect Plan.SortExamples.
 Import ListNotations.
@@ -60,55 +62,35 @@ Theorem C04_once_fks : forall cs l, plan cs = POk l -> Permutation (flat_map dec
 Proof. exact plan_once_fks. Qed.
 
 (** 3. "A table is created before any foreign key that points at it is declared, a table is
-    dropped only after every foreign key pointing at it has been dropped".
+    dropped only after every foreign key pointing at it has been dropped" -- the full statement, for
+    every well-formed change set and consistent catalogue, whatever the reference graph (chains, diamonds,
+    self references by pointer or by name, cycles of any length; created / dropped / modified tables mixed).
 
-    Full statement (FALSE of the faithful model and of the Go code, see C04_safe_refuted):
-      forall cs c, WF cs -> consistent c cs -> exists l c', plan cs = POk l /\ replay l c = Some c'.
+    History: on the tree pinned at 086d914 this statement was false (then: C04_safe_refuted with the witness
+    [ModifyTable t0 [ModifyForeignKey .. To -> t1]; AddTable t1 [fk -> t0]], C04_safe_exact for the exact
+    failing class).  dependsOn's ModifyTable/AddTable arm now treats ModifyForeignKey.To like an added
+    key (fix C04-modfk-detached, notes/fixes/C04-modfk-detached.diff); the model follows the fixed code. *)
+Theorem C04_safe : forall cs c,
+  WF cs -> consistent c cs -> exists l c', plan cs = POk l /\ replay l c = Some c'.
+Proof. exact plan_safe. Qed.
 
-    Refutation: ModifyTable t0 [ModifyForeignKey .. To -> t1] + AddTable t1 [fk -> t0].  The
-    reference graph has the cycle t0 <-> t1, detachReferences keeps the ModifyForeignKey in
-    place and forgets the sortMap order, dependsOn has no ModifyForeignKey arm: the ALTER that
-    re-points the key to t1 is planned before CREATE TABLE t1.  Reproduced on mysql.DefaultPlan
-    and postgres.DefaultPlan (known finding C04-modfk-to-added-table-detached). *)
-Theorem C04_safe_refuted :
-  exists cs c l, WF cs /\ consistent c cs /\ plan cs = POk l /\ replay l c = None.
-Proof. exact (ex_intro _ cx_cs (ex_intro _ cx_cat (ex_intro _ cx_plan cx_refutes))). Qed.
+(** The same for every list Go's unstable sort.Slice may hand to SortChanges in the cycle-free branch
+    (any permutation sorted by the index map), not only the model's stable sort. *)
+Theorem C04_safe_any_tiebreak : forall cs c S,
+  WF cs -> consistent c cs -> detach_spec cs S ->
+  exists out c', SortChanges S = Some out /\ replay out c = Some c'.
+Proof. exact safe_any_tiebreak. Qed.
 
-(** What does hold: the full statement for every well-formed change set and consistent catalogue,
-    with arbitrary reference graphs (chains, diamonds, self references, cycles of any length,
-    created / dropped / modified tables mixed), except when BOTH the graph has a cycle AND some
-    ModifyForeignKey re-points a key to a table created by the same change set. *)
-Theorem C04_safe_except : forall cs c,
-  WF cs -> consistent c cs ->
-  (sortMap cs = SMCycle -> no_repoint_to_added cs) ->
-  exists l c', plan cs = POk l /\ replay l c = Some c'.
-Proof. exact plan_safe_except. Qed.
-
-(** The same for every list Go's unstable sort.Slice may hand to SortChanges in the cycle-free
-    branch (any permutation sorted by the index map), not only the model's stable sort; and
-    SortChanges then only moves the drops to the end. *)
-Theorem C04_safe_except_any_tiebreak : forall cs c S,
-  WF cs -> consistent c cs ->
-  (sortMap cs = SMCycle -> no_repoint_to_added cs) ->
-  detach_spec cs S ->
-  SortChanges S = Some (partition_changes S) /\ exists c', replay (partition_changes S) c = Some c'.
-Proof. exact safe_except. Qed.
-
-(** The exception is exact.  [repoint_ordered cs]: every ModifyForeignKey whose new parent is
-    created by the change set stands after that AddTable in the change list.  With a cycle the plan
-    replays if and only if that holds (without a cycle it always replays). *)
-Theorem C04_safe_exact : forall cs c,
-  WF cs -> consistent c cs ->
-  exists l, plan cs = POk l /\
-    ((exists c', replay l c = Some c') <-> (sortMap cs = SMCycle -> repoint_ordered cs)).
-Proof. exact plan_safe_exact. Qed.
+(** Without a cycle SortChanges has nothing to repair: it only moves the drops behind the other changes. *)
+Theorem C04_acyclic_sort_is_partition : forall cs S sorted,
+  WF cs -> sortMap cs = SMOk sorted -> detach_spec cs S -> SortChanges S = Some (partition_changes S).
+Proof. exact acyclic_sort_is_partition. Qed.
 
 (** The plans mysql.DefaultPlan / postgres.DefaultPlan carry in Plan.Changes[i].Source: both rewrite
     a ModifyTable (re-pointed key = DROP + ADD; MySQL drops in a first ALTER, PostgreSQL puts the
-    constraint drops first inside one ALTER).  Under the same hypotheses all three plans replay. *)
+    constraint drops first inside one ALTER).  All three plans replay. *)
 Theorem C04_safe_dialects : forall cs c,
   WF cs -> consistent c cs ->
-  (sortMap cs = SMCycle -> repoint_ordered cs) ->
   exists l, plan cs = POk l /\
     (exists c1, replay l c = Some c1) /\
     (exists c2, replay (flat_map mysql_sources l) c = Some c2) /\
@@ -120,10 +102,9 @@ Print Assumptions C04_total_parts.
 Print Assumptions C04_once.
 Print Assumptions C04_once_wf.
 Print Assumptions C04_once_fks.
-Print Assumptions C04_safe_refuted.
-Print Assumptions C04_safe_except.
-Print Assumptions C04_safe_except_any_tiebreak.
-Print Assumptions C04_safe_exact.
+Print Assumptions C04_safe.
+Print Assumptions C04_safe_any_tiebreak.
+Print Assumptions C04_acyclic_sort_is_partition.
 Print Assumptions C04_safe_dialects.
 
 (** Non-vacuity. *)
@@ -143,35 +124,38 @@ Proof. vm_compute. repeat split; reflexivity. Qed.
 Example C04_once_wf_ex : WF sr_cs /\ plan sr_cs = POk sr_plan.
 Proof. exact (conj sr_wf (proj1 (proj2 sr_runs))). Qed.
 
-(* C04_safe_except, cycle branch: 3-cycle of created tables *)
+(* C04_safe, cycle branch: 3-cycle of created tables *)
 Example C04_safe_ex_3cycle :
-  WF c3_cs /\ consistent c3_cat c3_cs /\ (sortMap c3_cs = SMCycle -> no_repoint_to_added c3_cs) /\
+  WF c3_cs /\ consistent c3_cat c3_cs /\
   sortMap c3_cs = SMCycle /\ plan c3_cs = POk c3_plan /\
   replay c3_plan c3_cat = Some (mkCat [2; 1; 0] [(0, 21, 1); (1, 22, 2); (2, 20, 0)]).
-Proof. exact (conj c3_wf (conj c3_cons (conj c3_norepoint c3_runs))). Qed.
+Proof. exact (conj c3_wf (conj c3_cons c3_runs)). Qed.
 
 (* cycle branch: a created self-referencing table, a dropped self-referencing table in a 2-cycle of drops *)
 Example C04_safe_ex_selfref :
-  WF sr_cs /\ consistent sr_cat sr_cs /\ (sortMap sr_cs = SMCycle -> no_repoint_to_added sr_cs) /\
+  WF sr_cs /\ consistent sr_cat sr_cs /\
   sortMap sr_cs = SMCycle /\ plan sr_cs = POk sr_plan /\
   replay sr_plan sr_cat = Some (mkCat [0] [(0, 20, 0)]).
-Proof. exact (conj sr_wf (conj sr_cons (conj sr_norepoint sr_runs))). Qed.
+Proof. exact (conj sr_wf (conj sr_cons sr_runs)). Qed.
 
-(* cycle-free branch: a re-pointed key to a created table IS ordered correctly there *)
+(* cycle branch, the former counterexample: SortChanges moves CREATE TABLE 1 in front of the ALTER of
+   table 0 that re-points its key to table 1 (DetachCycles alone leaves it behind) *)
+Example C04_safe_ex_repoint_cycle :
+  WF cx_cs /\ consistent cx_cat cx_cs /\ sortMap cx_cs = SMCycle /\
+  DetachCycles cx_cs = DCOk
+    [ ModifyTable (des 0) [ModifyFK (mkFK 5 (cur 0) (cur 2)) (mkFK 5 (des 0) (des 1))];
+      AddTable (des 1) [];
+      ModifyTable (des 1) [AddFK (mkFK 21 (des 1) (des 0))] ] /\
+  plan cx_cs = POk cx_plan /\
+  replay cx_plan cx_cat = Some (mkCat [1; 0; 2] [(0, 5, 1); (1, 21, 0)]).
+Proof. exact (conj cx_wf (conj cx_cons cx_runs)). Qed.
+
+(* cycle-free branch: a re-pointed key to a created table, a chain, a drop *)
 Example C04_safe_ex_chain :
-  WF ch_cs /\ consistent ch_cat ch_cs /\ (sortMap ch_cs = SMCycle -> no_repoint_to_added ch_cs) /\
+  WF ch_cs /\ consistent ch_cat ch_cs /\
   sortMap ch_cs = SMOk [2; 1; 0] /\ plan ch_cs = POk ch_plan /\
   replay ch_plan ch_cat = Some (mkCat [1; 2; 0] [(1, 22, 2); (0, 5, 1)]).
-Proof. exact (conj ch_wf (conj ch_cons (conj ch_norepoint ch_runs))). Qed.
-
-(* C04_safe_exact: the counterexample's two changes in the other order -- same cycle, re-pointed key
-   to a created table, but ordered: it replays; the counterexample itself is not ordered *)
-Example C04_safe_exact_ex :
-  WF or_cs /\ consistent cx_cat or_cs /\ sortMap or_cs = SMCycle /\ repoint_ordered or_cs /\
-  ~ no_repoint_to_added or_cs /\ plan or_cs = POk or_plan /\
-  replay or_plan cx_cat = Some (mkCat [1; 0; 2] [(0, 5, 1); (1, 21, 0)]) /\
-  sortMap cx_cs = SMCycle /\ ~ repoint_ordered cx_cs.
-Proof. exact or_exact_ex. Qed.
+Proof. exact (conj ch_wf (conj ch_cons ch_runs)). Qed.
 
 (* the dialect plans of the chain example: the re-pointed key becomes DROP then ADD *)
 Example C04_safe_ex_dialects :
